@@ -46,6 +46,12 @@ class BaseCurve(Intface_BaseCurve):
             return False
         if (self.ctrlpoints is None) ^ (other.ctrlpoints is None):
             return False
+        if self.ctrlpoints is not None and (
+            self.weights is not None or other.weights is not None
+        ):
+            numa, dena = self.fraction()
+            numb, denb = other.fraction()
+            return (numa * denb) == (numb * dena)
         newknotvec = self.knotvector | other.knotvector
         selfcopy = copy(self)
         selfcopy.knotvector = newknotvec
